@@ -24,6 +24,9 @@ theorem groupBy_partition (hash : Nat → Nat) (eqv : Nat → Nat → Bool) (kr 
   G.groupBy_partition hash eqv kr ix hnd
 
 /-- T1: the functions this property's mirror model follows have today the source text the model was written against. -/
+-- Beyond the text: the grouper functions themselves (`newTable`, `grow`, `hash`, `insertEntry`, `equals`, `groupIndex`, `GroupBy`,
+-- `Distinct`) are regenerated on every run as programs of `QF.GL` and proved equal to the mirror `G` for all inputs in
+-- `C04GrouperGen.gen_grouper_semantics` (corollary `gen_groupBy_partition`: the theorem above for the regenerated code).
 -- The `Hash` functions of the column packages and the built-in aggregations are not compared as text: their meaning is
 -- regenerated on every run and proved in `C04Hash` (Equal keys hash equal) and `C04Aggregations` (= the spec's functions).
 theorem tie : Tie.sameAll ["grouper.maxLoadFactor", "grouper.growthFactor", "grouper.calculateInitialSizeExp", "grouper.insertEntry", "grouper.grow", "grouper.groupIndex", "grouper.GroupBy", "grouper.equals", "grouper.table.hash", "grouper.newTable", "qframe.QFrame.GroupBy", "qframe.Aggregate", "qframe.Grouper.QFrames"] = true := by decide
